@@ -72,8 +72,9 @@ def parse_type(s) -> T:
     if isinstance(s, T):
         return s
     s = s.strip()
-    if s.startswith("ext:"):
+    if s.startswith("ext:") and "[" not in s and "," not in s:
         return TExt(s[4:])
+    s = s.replace("ext:", "ext__")
     node = ast.parse(s, mode="eval").body
     return _from_node(node)
 
@@ -91,6 +92,8 @@ def _from_node(n) -> T:
             return TList(TAny)
         if n.id in ("dict", "Dict"):
             return TDict(TAny, TAny)
+        if n.id.startswith("ext__"):
+            return TExt(n.id[5:])
         return TObj(n.id)
     if isinstance(n, ast.Attribute):
         return TObj(n.attr)
